@@ -412,6 +412,13 @@ def build(name, repo, outdir, hints=True):
             elif k == "extract":
                 label = section_label(sec)
                 ss, span = real_tokens(repo, sec, rewrites)
+                base_ss = rtok.strs(rtok.base_tokens(rtok.split_annotated(sec["annot"])))
+                if ss != base_ss and ss.count("loop") > base_ss.count("loop") and ss.count("while") < base_ss.count("while"):
+                    ss2, nn = rtok.norm_loop_break(ss)
+                    if nn:
+                        ss = ss2
+                        rewrites.append({"rule": "RN1", "function": label, "from": "loop { if C { break; } B }",
+                                         "to": "while !(C) { B }  (%d loop(s); the annotated base has `while` there: definitional unfolding of `while`)" % nn})
                 annot, hs = sec["annot"], []
                 if hints:
                     try:
